@@ -75,7 +75,8 @@ ImputeClauses(c, j, sub) ==
             (Tr.strategy = "joint" /\ Tr.defimp /\ Len(c.draws) = Len(SelectSeq(c.models, LAMBDA m : m.imp > 0))) =>
                \A i \in 1..Len(ms) :
                   LET before == Len(SelectSeq(c.models, LAMBDA m : m.imp > 0 /\ m.imp < j)) IN
-                  \A f \in sub : ms[i].x[f] = c.rows[c.draws[before + i][3] + 1][f])
+                  LET idx == c.draws[before + i][3] + 1 IN
+                  idx \in 1..Len(c.rows) /\ \A f \in sub : ms[i].x[f] = c.rows[idx][f])
       /\ Ck("impute.no_mutation", c.imputes[j].subset_unmodified /\ c.imputes[j].x_is_arg)
       /\ Ck("impute.empty_subset_is_identity",
             sub = {} => \A i \in 1..Len(ms) : ms[i].x = x)
